@@ -4,4 +4,6 @@ Require ExtrOcamlBasic.
 Extraction Language OCaml.
 (* the converter of the regenerated units.toml, built by the model of the builder *)
 Definition bundled : outcome (option converter) := build_file file si_ratios.
-Extraction "scale_model.ml" bundled new_approx scale scale_to_servings default_scale Qred.
+(* the hand-written real-world definitions (independent of /repo), as plain data for the monitor *)
+Definition standards_x := Eval vm_compute in standards.
+Extraction "scale_model.ml" bundled new_approx scale scale_to_servings default_scale Qred standards_x.
